@@ -34,7 +34,11 @@ AllCmds == UNION {{<<f, c>> : c \in Cmds(f)} : f \in Families}
 \* rejects creates an obligation.
 Damaged == {"empty", "trunc_head", "trunc_mid", "trunc_tail", "corrupt_magic", "corrupt_size", "corrupt_rand"}
 HeadDamage == {"empty", "trunc_head", "corrupt_magic"}          \* nothing can be read: no sub-command can do its job
-Inputs == {"valid", "flagged", "nonexistent"} \cup Damaged
+\* "flagviol": parses and passes the default validation, but violates the rule an optional validate flag enforces
+\* (blp --strict: each dimension a power of two; wdl --version V: chunks of a later format) -- the library is asked per flag.
+Inputs == {"valid", "flagged", "flagviol", "nonexistent"} \cup Damaged
+\* what may already be at the place a producing sub-command writes to; the obligations do not depend on it
+PreStates == {"empty", "shorter", "longer", "dir", "readonly"}
 LibVerdicts == {"ok", "err", "panic", "n/a"}
 
 \* sub-commands that by design consume the whole input (so any damage the library rejects defeats them)
@@ -43,7 +47,7 @@ Whole(f, c) == c \in {"validate", "convert", "export", "list", "tiles", "extract
 \* sub-commands whose job is to write files
 Producer(f, c) == c \in {"convert", "skin-convert", "anim-convert", "export", "create", "extract", "rebuild"}
 \* sub-commands whose printed facts are compared with the library's view
-Viewer(f, c) == <<f, c>> \in {<<"mpq", "list">>, <<"mpq", "info">>}
+Viewer(f, c) == <<f, c>> \in {<<"mpq", "list">>, <<"mpq", "info">>, <<"wdt", "tiles">>, <<"dbc", "export">>}   \* per output-format option
 
 \* ---------------------------------------------------------------------------------------------------
 \* the matrix: is this run one the tool cannot carry out?
@@ -68,11 +72,12 @@ Obligations == {"must_fail", "complete_if_zero", "view_if_zero", "free"}
 
 \* ---------------------------------------------------------------------------------------------------
 \* outcomes and the obligations on them
-\* o: [exit, says_fail, want, got, outs_ok, view_ok, rt_ok]
+\* o: [exit, says_fail, want, got, outs_ok, view_ok, rt_ok, pre_ok]
 \*   want / got: sets of <<name, token>>;  outs_ok: every produced file is accepted by the library
 \*   rt_ok: the conversion A -> B (this run) followed by B -> A' gave token(A') = token(A), or that is not demanded of this path
 \* ---------------------------------------------------------------------------------------------------
-Complete(o) == o.want \subseteq o.got /\ o.outs_ok
+\* pre_ok: the produced file equals (token and length) what the same command produces into a fresh location
+Complete(o) == o.want \subseteq o.got /\ o.outs_ok /\ o.pre_ok
 O1(r, o) == FailureClass(r) => o.exit # 0
 O2(r, o) == o.says_fail => o.exit # 0
 O3(r, o) == (o.exit = 0 /\ Producer(r.fam, r.cmd)) => Complete(o)
@@ -106,50 +111,72 @@ VARIABLES vdisk,     \* input directory: name -> token   (function on a subset o
           varch,     \* archive content: name -> token
           vdamaged,  \* names inside the archive whose data cannot be read
           vout,      \* extraction directory: name -> token
-          vlast      \* [r, o] of the last run, or "none"
-cvars == <<vdisk, vmade, varch, vdamaged, vout, vlast>>
+          vlast,     \* [r, o] of the last run
+          vextracted \* an extraction has run
+cvars == <<vdisk, vmade, varch, vdamaged, vout, vlast, vextracted>>
 
 Maps == UNION {[S -> Toks] : S \in SUBSET Names}
 AsSet(m) == {<<n, m[n]>> : n \in DOMAIN m}
 Run0(f, c, inp) == [fam |-> f, cmd |-> c, input |-> inp, lib |-> "ok", libval |-> "ok", missing |-> FALSE, skip |-> FALSE]
 
-NoOutcome == [exit |-> 0, says_fail |-> FALSE, want |-> {}, got |-> {}, outs_ok |-> TRUE, view_ok |-> TRUE, rt_ok |-> TRUE]
+NoOutcome == [exit |-> 0, says_fail |-> FALSE, want |-> {}, got |-> {}, outs_ok |-> TRUE, view_ok |-> TRUE, rt_ok |-> TRUE, pre_ok |-> TRUE]
 NoRun == [r |-> Run0("mpq", "-", "valid"), o |-> NoOutcome]
 EmptyMap == [n \in {} |-> "t"]
 HasRun == vlast.r.cmd # "-"
-Init == /\ vdisk \in Maps /\ vmade = FALSE /\ varch = EmptyMap /\ vdamaged = {} /\ vout = EmptyMap /\ vlast = NoRun
+Init == /\ vdisk \in Maps /\ vmade = FALSE /\ varch = EmptyMap /\ vdamaged = {} /\ vout = EmptyMap /\ vlast = NoRun /\ vextracted = FALSE
 
 \* mpq create: a truthful tool either fails and says so, or leaves an archive holding exactly the inputs
 Create(ok) ==
     /\ ~vmade
     /\ LET r == Run0("mpq", "create", "valid")
            o == [exit |-> IF ok THEN 0 ELSE 1, says_fail |-> ~ok, want |-> AsSet(vdisk),
-                 got |-> IF ok THEN AsSet(vdisk) ELSE {}, outs_ok |-> TRUE, view_ok |-> TRUE, rt_ok |-> TRUE] IN
+                 got |-> IF ok THEN AsSet(vdisk) ELSE {}, outs_ok |-> TRUE, view_ok |-> TRUE, rt_ok |-> TRUE, pre_ok |-> TRUE] IN
        /\ varch' = IF ok THEN vdisk ELSE EmptyMap
        /\ vmade' = ok
        /\ vlast' = [r |-> r, o |-> o]
-    /\ UNCHANGED <<vdisk, vdamaged, vout>>
+    /\ UNCHANGED <<vdisk, vdamaged, vout, vextracted>>
 
 \* somebody damages the data of one stored file (the archive still opens)
 Damage(n) ==
     /\ vmade /\ n \in DOMAIN varch /\ n \notin vdamaged
     /\ vdamaged' = vdamaged \cup {n}
-    /\ UNCHANGED <<vdisk, vmade, varch, vout, vlast>>
+    /\ UNCHANGED <<vdisk, vmade, varch, vout, vlast, vextracted>>
 
-\* mpq extract of a set of requested names (possibly absent ones), with or without --skip-errors
+\* the output directory is not empty: a stale file of some name is already there (pre-state of a producer)
+Plant(n) ==
+    /\ ~vextracted /\ n \notin DOMAIN vout
+    /\ vout' = [m \in DOMAIN vout \cup {n} |-> IF m = n THEN "stale" ELSE vout[m]]
+    /\ UNCHANGED <<vdisk, vmade, varch, vdamaged, vlast, vextracted>>
+
+\* mpq extract of a set of requested names (possibly absent ones), with or without --skip-errors; what was in
+\* the directory under the same name is replaced, other files stay
 Extract(req, skip) ==
-    /\ vmade /\ DOMAIN vout = {}
+    /\ vmade /\ ~vextracted
     /\ LET present == req \cap DOMAIN varch
            readable == present \ vdamaged
            failed == req \ readable
            r == [Run0("mpq", "extract", "valid") EXCEPT !.missing = (req \ DOMAIN varch # {}), !.skip = skip,
                                                         !.libval = IF present \cap vdamaged # {} THEN "fail" ELSE "ok"]
            exit == IF failed # {} /\ ~skip THEN 1 ELSE 0
-           written == [n \in readable |-> varch[n]]
+           written == [n \in DOMAIN vout \cup readable |-> IF n \in readable THEN varch[n] ELSE vout[n]]
            o == [exit |-> exit, says_fail |-> exit # 0, want |-> {<<n, varch[n]>> : n \in readable},
-                 got |-> AsSet(written), outs_ok |-> TRUE, view_ok |-> TRUE, rt_ok |-> TRUE] IN
+                 got |-> AsSet(written), outs_ok |-> TRUE, view_ok |-> TRUE, rt_ok |-> TRUE, pre_ok |-> TRUE] IN
        /\ vout' = written
        /\ vlast' = [r |-> r, o |-> o]
+    /\ vextracted' = TRUE
+    /\ UNCHANGED <<vdisk, vmade, varch, vdamaged>>
+
+\* DEVIATION (seeded change class "open without truncate"): what is already in the directory under a requested name survives,
+\* the run still reports success
+ExtractKeepsStale(req) ==
+    /\ vmade /\ ~vextracted
+    /\ LET readable == (req \cap DOMAIN varch) \ vdamaged
+           r == Run0("mpq", "extract", "valid")
+           written == [n \in DOMAIN vout \cup readable |-> IF n \in DOMAIN vout THEN vout[n] ELSE varch[n]]
+           o == [NoOutcome EXCEPT !.want = {<<n, varch[n]>> : n \in readable}, !.got = AsSet(written)] IN
+       /\ vout' = written
+       /\ vlast' = [r |-> r, o |-> o]
+    /\ vextracted' = TRUE
     /\ UNCHANGED <<vdisk, vmade, varch, vdamaged>>
 
 \* mpq validate as coded (since 01748b8): reads every file, fails when one cannot be read
@@ -157,52 +184,56 @@ Validate ==
     /\ vmade
     /\ LET bad == vdamaged # {}
            r == [Run0("mpq", "validate", IF bad THEN "flagged" ELSE "valid") EXCEPT !.libval = IF bad THEN "fail" ELSE "ok"]
-           o == [exit |-> IF bad THEN 1 ELSE 0, says_fail |-> bad, want |-> {}, got |-> {}, outs_ok |-> TRUE, view_ok |-> TRUE, rt_ok |-> TRUE] IN
+           o == [exit |-> IF bad THEN 1 ELSE 0, says_fail |-> bad, want |-> {}, got |-> {}, outs_ok |-> TRUE, view_ok |-> TRUE, rt_ok |-> TRUE, pre_ok |-> TRUE] IN
        vlast' = [r |-> r, o |-> o]
-    /\ UNCHANGED <<vdisk, vmade, varch, vdamaged, vout>>
+    /\ UNCHANGED <<vdisk, vmade, varch, vdamaged, vout, vextracted>>
 
 \* DEVIATION (the code before /repo commit 01748b8, F-C20-a): validate reports the failure and returns Ok(())
 ValidateDeviant ==
     /\ vmade
     /\ LET bad == vdamaged # {}
            r == [Run0("mpq", "validate", IF bad THEN "flagged" ELSE "valid") EXCEPT !.libval = IF bad THEN "fail" ELSE "ok"]
-           o == [exit |-> 0, says_fail |-> bad, want |-> {}, got |-> {}, outs_ok |-> TRUE, view_ok |-> TRUE, rt_ok |-> TRUE] IN
+           o == [exit |-> 0, says_fail |-> bad, want |-> {}, got |-> {}, outs_ok |-> TRUE, view_ok |-> TRUE, rt_ok |-> TRUE, pre_ok |-> TRUE] IN
        vlast' = [r |-> r, o |-> o]
-    /\ UNCHANGED <<vdisk, vmade, varch, vdamaged, vout>>
+    /\ UNCHANGED <<vdisk, vmade, varch, vdamaged, vout, vextracted>>
 
 \* list / info of the archive
 View ==
     /\ vmade
     /\ vlast' = [r |-> Run0("mpq", "list", "valid"),
-                 o |-> [exit |-> 0, says_fail |-> FALSE, want |-> {}, got |-> {}, outs_ok |-> TRUE, view_ok |-> TRUE, rt_ok |-> TRUE]]
-    /\ UNCHANGED <<vdisk, vmade, varch, vdamaged, vout>>
+                 o |-> [exit |-> 0, says_fail |-> FALSE, want |-> {}, got |-> {}, outs_ok |-> TRUE, view_ok |-> TRUE, rt_ok |-> TRUE, pre_ok |-> TRUE]]
+    /\ UNCHANGED <<vdisk, vmade, varch, vdamaged, vout, vextracted>>
 
 \* any sub-command of any family on any input class: a truthful tool fails exactly on the failure class
 Other(f, c, inp, lib) ==
     /\ ~vmade /\ ~HasRun                 \* stateless runs: explored once per input directory, not per session state
     /\ LET r == [Run0(f, c, inp) EXCEPT !.lib = lib]
            o == [exit |-> IF FailureClass(r) THEN 1 ELSE 0, says_fail |-> FailureClass(r), want |-> {}, got |-> {},
-                 outs_ok |-> TRUE, view_ok |-> TRUE, rt_ok |-> TRUE] IN
+                 outs_ok |-> TRUE, view_ok |-> TRUE, rt_ok |-> TRUE, pre_ok |-> TRUE] IN
        vlast' = [r |-> r, o |-> o]
-    /\ UNCHANGED <<vdisk, vmade, varch, vdamaged, vout>>
+    /\ UNCHANGED <<vdisk, vmade, varch, vdamaged, vout, vextracted>>
 
 NextIntended ==
     \/ \E ok \in BOOLEAN : Create(ok)
     \/ \E n \in Names : Damage(n)
+    \/ \E n \in Names : Plant(n)
     \/ \E req \in SUBSET Names : \E skip \in BOOLEAN : req # {} /\ Extract(req, skip)
     \/ Validate
     \/ View
     \/ \E fc \in AllCmds : \E inp \in Inputs : \E lib \in {"ok", "err"} :
           (inp = "nonexistent" => lib = "ok") /\ Other(fc[1], fc[2], inp, lib)
 NextDeviant == NextIntended \/ ValidateDeviant
+NextDeviant2 == NextIntended \/ \E req \in SUBSET Names : req # {} /\ ExtractKeepsStale(req)
 
 \* ---------------------------------------------------------------------------------------------------
 \* what TLC checks on the model
 \* ---------------------------------------------------------------------------------------------------
 LastTruthful == HasRun => Truthful(vlast.r, vlast.o)
 \* create ; extract(everything) = identity on tokens, whenever both runs exit 0 and nothing was damaged
-RoundTrip == (vmade /\ DOMAIN vout # {} /\ vdamaged = {}) =>
-             \A n \in DOMAIN vout : n \in DOMAIN vdisk /\ vout[n] = vdisk[n]
+\* -- whatever stale files were in the output directory before (a stale file under a requested name is ruled out by
+\* ExtractComplete: the wanted token must be there)
+RoundTrip == (vmade /\ vextracted /\ vdamaged = {}) =>
+             \A n \in DOMAIN vout : vout[n] = "stale" \/ (n \in DOMAIN vdisk /\ vout[n] = vdisk[n])
 \* exit 0 of an extraction means every requested readable file is there
 ExtractComplete == (HasRun /\ vlast.r.cmd = "extract" /\ vlast.o.exit = 0) => vlast.o.want \subseteq AsSet(vout)
 \* the matrix is total and single-valued, and is not vacuous: every sub-command has runs it must fail and runs it need not
